@@ -1,8 +1,762 @@
-(* Lemmas about Model/Dhcp4.v for property C02. *)
-From Coq Require Import NArith List Bool Lia ZifyN ZifyNat ZifyBool.
+(* Lemmas about Model/Dhcp4.v for property C02: association lists, the pool partition invariant,
+   the lease-table invariant under the circuit-id guard, and the clause lemmas Props/C02.v uses. *)
+From Coq Require Import NArith List Bool Lia ZifyN ZifyNat ZifyBool FinFun.
 From Verif Require Import Model.Dhcp4.
 Import ListNotations.
 Local Open Scope N_scope.
+
+(* ---------- association lists ---------- *)
+Lemma alookup_in {A} k (v : A) l : alookup k l = Some v -> In (k, v) l.
+Proof.
+  induction l as [|[k' v'] tl IH]; cbn; [discriminate|].
+  destruct (k' =? k) eqn:E; intro H.
+  - apply N.eqb_eq in E. inversion H; subst. now left.
+  - right; auto.
+Qed.
+Lemma alookup_none {A} k (l : list (N * A)) : alookup k l = None -> ~ In k (map fst l).
+Proof.
+  induction l as [|[k' v'] tl IH]; cbn; [tauto|].
+  destruct (k' =? k) eqn:E; [discriminate|]. apply N.eqb_neq in E. intros H [H1|H1]; [congruence|]. now apply IH.
+Qed.
+Lemma in_alookup {A} k (v : A) l : NoDup (map fst l) -> In (k, v) l -> alookup k l = Some v.
+Proof.
+  induction l as [|[k' v'] tl IH]; cbn; [tauto|]. intros Hn [H|H].
+  - inversion H; subst. now rewrite N.eqb_refl.
+  - inversion Hn; subst. destruct (k' =? k) eqn:E.
+    + apply N.eqb_eq in E. subst. exfalso. apply H2. now apply (in_map fst) in H.
+    + auto.
+Qed.
+Lemma alookup_aremove_eq {A} k (l : list (N * A)) : alookup k (aremove k l) = None.
+Proof.
+  induction l as [|[k' v'] tl IH]; cbn; [reflexivity|].
+  destruct (k' =? k) eqn:E; cbn; [exact IH|]. now rewrite E.
+Qed.
+Lemma alookup_aremove_ne {A} k k' (l : list (N * A)) : k <> k' -> alookup k (aremove k' l) = alookup k l.
+Proof.
+  intro Hn. induction l as [|[k2 v2] tl IH]; cbn; [reflexivity|].
+  destruct (k2 =? k') eqn:E; cbn.
+  - apply N.eqb_eq in E. subst. destruct (k' =? k) eqn:E2; [apply N.eqb_eq in E2; congruence|exact IH].
+  - destruct (k2 =? k); [reflexivity|exact IH].
+Qed.
+Lemma alookup_aset_eq {A} k (v : A) l : alookup k (aset k v l) = Some v.
+Proof. unfold aset. cbn. now rewrite N.eqb_refl. Qed.
+Lemma alookup_aset_ne {A} k k' (v : A) l : k <> k' -> alookup k (aset k' v l) = alookup k l.
+Proof.
+  intro Hn. unfold aset. cbn. destruct (k' =? k) eqn:E; [apply N.eqb_eq in E; congruence|]. now apply alookup_aremove_ne.
+Qed.
+Lemma in_aremove {A} k (p : N * A) l : In p (aremove k l) -> In p l.
+Proof. unfold aremove. rewrite filter_In. tauto. Qed.
+Lemma in_aset {A} k (v : A) p l : In p (aset k v l) -> p = (k, v) \/ In p l.
+Proof. unfold aset. intros [H|H]; [left; auto|right; eapply in_aremove; eauto]. Qed.
+
+Lemma memN_in x l : memN x l = true <-> In x l.
+Proof.
+  unfold memN. rewrite existsb_exists. split.
+  - intros [y [H1 H2]]. apply N.eqb_eq in H2. now subst.
+  - intro H. exists x. split; [auto|apply N.eqb_refl].
+Qed.
+Lemma in_remove1 x y l : In y (remove1 x l) -> In y l.
+Proof.
+  induction l as [|z tl IH]; cbn; [tauto|]. destruct (z =? x); [tauto|]. intros [H|H]; [now left|right; auto].
+Qed.
+Lemma nodup_remove1 x l : NoDup l -> NoDup (remove1 x l).
+Proof.
+  induction 1 as [|z tl Hn Hd IH]; cbn; [constructor|]. destruct (z =? x); [assumption|].
+  constructor; [intro H; apply Hn; eapply in_remove1; eauto|assumption].
+Qed.
+Lemma notin_remove1 x l : NoDup l -> ~ In x (remove1 x l).
+Proof.
+  induction 1 as [|z tl Hn Hd IH]; cbn; [tauto|]. destruct (z =? x) eqn:E.
+  - apply N.eqb_eq in E. now subst.
+  - apply N.eqb_neq in E. intros [H|H]; [congruence|tauto].
+Qed.
+Lemma in_remove1_ne x y l : In y l -> y <> x -> In y (remove1 x l).
+Proof.
+  induction l as [|z tl IH]; cbn; [tauto|]. intros [H|H] Hn.
+  - subst. destruct (y =? x) eqn:E; [apply N.eqb_eq in E; congruence|now left].
+  - destruct (z =? x); [assumption|right; auto].
+Qed.
+
+(* ---------- usable values: clause (c) and the universe every table draws from ---------- *)
+Definition vals_ok (c : cfg4) (s : state4) : Prop :=
+  (forall v, In v (avail s) -> usable4 c v = true) /\
+  (forall p, In p (alloc s) -> usable4 c (snd p) = true) /\
+  (forall p, In p (leases s) -> usable4 c (l_ip (snd p)) = true) /\
+  (forall p, In p (cidx s) -> usable4 c (l_ip (snd p)) = true).
+
+Lemma init_vals_ok c : vals_ok c (init4 c).
+Proof.
+  unfold vals_ok, init4; cbn. repeat split; try tauto.
+  intros v Hv. unfold init_avail in Hv. apply filter_In in Hv. destruct Hv as [Hv Hg].
+  apply in_map_iff in Hv. destruct Hv as [i [Hi Hs]]. apply in_seq in Hs. subst v.
+  unfold usable4. rewrite Hg. rewrite andb_true_r. apply andb_true_iff. split; lia.
+Qed.
+
+Lemma drop_first_val_in ip a a' p : drop_first_val ip a = Some a' -> In p a' -> In p a.
+Proof.
+  revert a'. induction a as [|[h v] tl IH]; cbn; [discriminate|]. intros a'.
+  destruct (v =? ip).
+  - intros H; inversion H; subst. now right.
+  - destruct (drop_first_val ip tl) eqn:E; [|discriminate]. intros H; inversion H; subst.
+    intros [Hp|Hp]; [now left|right; eapply IH; eauto].
+Qed.
+
+Lemma pool_alloc_in h al av v al' av' :
+  pool_alloc h al av = Some (v, al', av') ->
+  (In (h, v) al \/ In v av) /\ (forall p, In p al' -> p = (h, v) \/ In p al) /\ (forall x, In x av' -> In x av).
+Proof.
+  unfold pool_alloc. destruct (alookup h al) eqn:E.
+  - intro H; inversion H; subst. apply alookup_in in E. repeat split; auto.
+  - destruct av as [|x tl]; [discriminate|]. intro H; inversion H; subst. repeat split.
+    + right; now left.
+    + intros p [Hp|Hp]; auto.
+    + intros y Hy; now right.
+Qed.
+
+Ltac inv H := inversion H; subst; clear H.
+
+Lemma pool_release_ok c s ip : vals_ok c s -> usable4 c ip = true -> vals_ok c (pool_release s ip).
+Proof.
+  intros (H1 & H2 & H3 & H4) Hu. unfold pool_release. destruct (drop_first_val ip (alloc s)) eqn:E; [|repeat split; auto].
+  repeat split; cbn; auto.
+  - intros v Hv. apply in_app_or in Hv. destruct Hv as [Hv|[Hv|[]]]; [auto|now subst].
+  - intros p Hp. apply H2. eapply drop_first_val_in; eauto.
+Qed.
+
+Lemma drop_lease_ok c s m l : vals_ok c s -> vals_ok c (drop_lease s m l).
+Proof.
+  intros (H1 & H2 & H3 & H4). repeat split; cbn; auto.
+  - intros p Hp. apply H3. eapply in_aremove; eauto.
+  - intros p Hp. destruct (l_cid l =? 0); [auto|apply H4; eapply in_aremove; eauto].
+Qed.
+
+Lemma do_ack_ok c s m ex ip : vals_ok c s -> usable4 c ip = true -> vals_ok c (do_ack c s m ex ip).
+Proof.
+  intros (H1 & H2 & H3 & H4) Hu. repeat split; cbn; auto.
+  - intros p Hp. apply in_aset in Hp. destruct Hp as [Hp|Hp]; [subst; exact Hu|auto].
+  - intros p Hp. match type of Hp with In _ (if ?b then _ else _) => destruct b end; [auto|].
+    apply in_aset in Hp. destruct Hp as [Hp|Hp]; [subst; exact Hu|auto].
+Qed.
+
+Lemma existing_usable c s m e : vals_ok c s -> existing s m = Some e -> usable4 c (l_ip (fst e)) = true.
+Proof.
+  intros (H1 & H2 & H3 & H4). unfold existing. destruct (alookup (m_mac m) (leases s)) eqn:E.
+  - intro H; inv H. apply alookup_in in E. apply (H3 _ E).
+  - destruct (m_relay m && negb (m_cid m =? 0)); [|discriminate].
+    destruct (alookup (m_cid m) (cidx s)) eqn:E2; [|discriminate]. intro H; inv H.
+    apply alookup_in in E2. apply (H4 _ E2).
+Qed.
+
+Lemma expire_one_ok c s m : vals_ok c s -> vals_ok c (expire_one s m).
+Proof.
+  intro H. unfold expire_one. destruct (alookup m (leases s)) eqn:E; [|assumption].
+  destruct (l_exp l <=? now s); [|assumption].
+  apply pool_release_ok; [now apply drop_lease_ok|]. destruct H as (_ & _ & H3 & _). apply alookup_in in E. apply (H3 _ E).
+Qed.
+
+Lemma fold_expire_ok c l s : vals_ok c s -> vals_ok c (fold_left expire_one l s).
+Proof. revert s. induction l; cbn; auto using expire_one_ok. Qed.
+
+Definition reply_val (r : reply4) : option N :=
+  match r with ROffer v | RAck v => Some v | _ => None end.
+
+(* one step: tables stay inside the usable set, and any OFFER/ACK value is usable *)
+Lemma step_vals_ok c s o s' r mk :
+  vals_ok c s -> step4 c s o = (s', r, mk) ->
+  vals_ok c s' /\ (forall v, reply_val r = Some v -> usable4 c v = true).
+Proof.
+  intros Hok Hs. pose proof Hok as (H1 & H2 & H3 & H4).
+  assert (Hal : forall h ip a' v', pool_alloc h (alloc s) (avail s) = Some (ip, a', v') ->
+     vals_ok c {| leases := leases s; cidx := cidx s; alloc := a'; avail := v'; unavail := unavail s; now := now s |}
+     /\ usable4 c ip = true).
+  { intros h ip a' v' Hp. apply pool_alloc_in in Hp. destruct Hp as (Ha & Hb & Hc).
+    assert (Hu : usable4 c ip = true) by (destruct Ha as [Ha|Ha]; [apply (H2 _ Ha)|auto]).
+    split; [|exact Hu]. repeat split; cbn; auto.
+    intros p Hp. apply Hb in Hp. destruct Hp as [Hp|Hp]; [subst; exact Hu|auto]. }
+  destruct o as [m|m|m|m|m|d|ord]; cbn in Hs.
+  - (* Discover *)
+    destruct (existing s m) as [e|] eqn:Ee.
+    + destruct (now s <? l_exp (fst e)).
+      * inv Hs. split; [assumption|]. cbn. intros v Hv; inv Hv. eapply existing_usable; eauto.
+      * destruct (pool_alloc (m_mac m) (alloc s) (avail s)) as [[[ip a'] v']|] eqn:Ep; inv Hs.
+        -- destruct (Hal _ _ _ _ Ep). split; [assumption|]. cbn. intros v Hv; inv Hv; assumption.
+        -- split; [assumption|discriminate].
+    + destruct (pool_alloc (m_mac m) (alloc s) (avail s)) as [[[ip a'] v']|] eqn:Ep; inv Hs.
+      * destruct (Hal _ _ _ _ Ep). split; [assumption|]. cbn. intros v Hv; inv Hv; assumption.
+      * split; [assumption|discriminate].
+  - (* Request *)
+    destruct (existing s m) as [e|] eqn:Ee.
+    + destruct (l_ip (fst e) =? requested m) eqn:Eq; inv Hs; [|split; [assumption|discriminate]].
+      apply N.eqb_eq in Eq. pose proof (existing_usable _ _ _ _ Hok Ee) as Hu. rewrite Eq in Hu.
+      split; [now apply do_ack_ok|]. cbn. intros v Hv; inv Hv; assumption.
+    + destruct (negb (contains4 c (requested m))); [inv Hs; split; [assumption|discriminate]|].
+      destruct (pool_reserve s (m_mac m) (requested m)) as [s1|] eqn:Er; inv Hs; [|split; [assumption|discriminate]].
+      unfold pool_reserve in Er. destruct (alookup (m_mac m) (alloc s)) as [cur|] eqn:Ea.
+      * destruct (cur =? requested m) eqn:Ec; inv Er. apply N.eqb_eq in Ec. subst cur.
+        apply alookup_in in Ea. pose proof (H2 _ Ea) as Hu. cbn in Hu.
+        split; [now apply do_ack_ok|]. cbn. intros v Hv; inv Hv; assumption.
+      * destruct (memN (requested m) (avail s)) eqn:Em; inv Er. apply memN_in in Em. pose proof (H1 _ Em) as Hu.
+        split; [|cbn; intros v Hv; inv Hv; assumption].
+        apply do_ack_ok; [|assumption]. repeat split; cbn; auto.
+        -- intros v Hv. apply H1. eapply in_remove1; eauto.
+        -- intros p [Hp|Hp]; [subst; exact Hu|auto].
+  - (* Release *)
+    destruct (alookup (m_mac m) (leases s)) eqn:E; inv Hs; (split; [|discriminate]); [|assumption].
+    apply pool_release_ok; [now apply drop_lease_ok|]. apply alookup_in in E. apply (H3 _ E).
+  - (* Decline *)
+    destruct (alookup (m_mac m) (leases s)) eqn:E; inv Hs; (split; [|discriminate]); [|assumption].
+    pose proof (drop_lease_ok c s (m_mac m) l Hok) as Hd. destruct (m_req m); [|assumption].
+    destruct Hd as (D1 & D2 & D3 & D4). repeat split; cbn [pool_mark leases cidx alloc avail]; auto.
+    + intros v Hv. apply D1. eapply in_remove1; eauto.
+    + intros p Hp. apply filter_In in Hp. apply D2. tauto.
+  - inv Hs. split; [assumption|discriminate].
+  - inv Hs. split; [|discriminate]. repeat split; cbn; auto.
+  - inv Hs. split; [|discriminate]. now apply fold_expire_ok.
+Qed.
+
+Lemma run_vals_ok c ops : vals_ok c (run4 c ops).
+Proof.
+  unfold run4. set (s0 := init4 c). assert (H0 : vals_ok c s0) by apply init_vals_ok. clearbody s0.
+  revert s0 H0. induction ops as [|o tl IH]; cbn; intros s0 H0; [assumption|].
+  apply IH. unfold step4s. destruct (step4 c s0 o) as [[s' r] mk] eqn:E. cbn. eapply step_vals_ok; eauto.
+Qed.
+
+(* (c) every OFFER / ACK value, after any history *)
+Lemma v4_value_usable c ops o s' r mk v :
+  step4 c (run4 c ops) o = (s', r, mk) -> reply_val r = Some v -> usable4 c v = true.
+Proof. intros Hs Hv. eapply step_vals_ok; eauto using run_vals_ok. Qed.
+
+(* ---------- the pool partition ---------- *)
+Record pool_inv (s : state4) : Prop := {
+  p_av : NoDup (avail s);
+  p_vals : NoDup (map snd (alloc s));
+  p_keys : NoDup (map fst (alloc s));
+  p_disj : forall v, In v (avail s) -> ~ In v (map snd (alloc s));
+  p_un : forall v, In v (unavail s) -> ~ In v (avail s) /\ ~ In v (map snd (alloc s)) }.
+
+Lemma vals_inj (a : list (N * N)) m1 m2 v :
+  NoDup (map snd a) -> In (m1, v) a -> In (m2, v) a -> m1 = m2.
+Proof.
+  induction a as [|[h x] tl IH]; cbn; [tauto|]. intros Hn [H1|H1] [H2|H2]; inv Hn.
+  - congruence.
+  - inv H1. exfalso. apply H3. now apply (in_map snd) in H2.
+  - inv H2. exfalso. apply H3. now apply (in_map snd) in H1.
+  - auto.
+Qed.
+Lemma lookup_vals_inj (a : list (N * N)) m1 m2 v :
+  NoDup (map snd a) -> alookup m1 a = Some v -> alookup m2 a = Some v -> m1 = m2.
+Proof. intros Hn H1 H2. eapply vals_inj; eauto using alookup_in. Qed.
+Lemma lookup_in_vals (a : list (N * N)) m v : alookup m a = Some v -> In v (map snd a).
+Proof. intro H. apply alookup_in in H. now apply (in_map snd) in H. Qed.
+
+Lemma nodup_map_filter {A B} (f : A -> B) g l : NoDup (map f l) -> NoDup (map f (filter g l)).
+Proof.
+  induction l as [|x tl IH]; cbn; [auto|]. intro H; inv H. destruct (g x); cbn; auto.
+  constructor; auto. intro Hi. apply H2. apply in_map_iff in Hi. destruct Hi as [y [Hy Hf]].
+  apply filter_In in Hf. apply in_map_iff. exists y. tauto.
+Qed.
+
+Lemma drop_first_val_split ip a a' :
+  drop_first_val ip a = Some a' -> exists h a1 a2, a = a1 ++ (h, ip) :: a2 /\ a' = a1 ++ a2.
+Proof.
+  revert a'. induction a as [|[h v] tl IH]; cbn; [discriminate|]. intros a'. destruct (v =? ip) eqn:E.
+  - apply N.eqb_eq in E. subst. intro H; inv H. exists h, [], a'. auto.
+  - destruct (drop_first_val ip tl) eqn:E2; [|discriminate]. intro H; inv H.
+    destruct (IH _ eq_refl) as (h' & a1 & a2 & -> & ->). exists h', ((h, v) :: a1), a2. auto.
+Qed.
+Lemma drop_first_val_none ip a : drop_first_val ip a = None -> ~ In ip (map snd a).
+Proof.
+  induction a as [|[h v] tl IH]; cbn; [tauto|]. destruct (v =? ip) eqn:E; [discriminate|].
+  apply N.eqb_neq in E. destruct (drop_first_val ip tl); [discriminate|]. intros _ [H|H]; [congruence|now apply IH].
+Qed.
+
+Definition with_pool (s : state4) a v u : state4 :=
+  {| leases := leases s; cidx := cidx s; alloc := a; avail := v; unavail := u; now := now s |}.
+
+Lemma pool_alloc_inv s h ip a' v' :
+  pool_inv s -> pool_alloc h (alloc s) (avail s) = Some (ip, a', v') ->
+  pool_inv (with_pool s a' v' (unavail s)) /\ alookup h a' = Some ip /\
+  (forall h', h' <> h -> alookup h' a' = alookup h' (alloc s)) /\
+  (alookup h (alloc s) = Some ip \/ In ip (avail s)).
+Proof.
+  intros [P1 P2 P6 P3 P4]. unfold pool_alloc. destruct (alookup h (alloc s)) eqn:E.
+  - intro H; inv H. split; [constructor; cbn; auto|]. repeat split; auto.
+  - destruct (avail s) as [|x tl] eqn:Ea; [discriminate|]. intro H; inv H. inv P1.
+    assert (Hx : ~ In ip (map snd (alloc s))) by (apply P3; now left).
+    split; [constructor; cbn|split; [|split]; cbn].
+    + assumption.
+    + constructor; auto.
+    + constructor; auto. now apply alookup_none.
+    + intros v Hv [Hc|Hc]; [subst; auto|]. apply (P3 v); [now right|assumption].
+    + intros v Hv. destruct (P4 v Hv) as [Q1 Q2]. split; [intro; apply Q1; now right|].
+      intros [Hc|Hc]; [subst; apply Q1; now left|auto].
+    + now rewrite N.eqb_refl.
+    + intros h' Hn. destruct (h =? h') eqn:E2; [apply N.eqb_eq in E2; congruence|reflexivity].
+    + right; now left.
+Qed.
+
+Lemma nodup_snoc {A} (l : list A) x : NoDup l -> ~ In x l -> NoDup (l ++ [x]).
+Proof.
+  induction 1 as [|y tl Hy Hd IH]; cbn; intro Hx; [constructor; [tauto|constructor]|].
+  constructor; [|apply IH; tauto]. intro Hi. apply in_app_or in Hi. cbn in Hi. intuition congruence.
+Qed.
+
+Lemma pool_release_inv s ip : pool_inv s -> pool_inv (pool_release s ip).
+Proof.
+  intros [P1 P2 P6 P3 P4]. unfold pool_release. destruct (drop_first_val ip (alloc s)) eqn:E; [|constructor; auto].
+  destruct (drop_first_val_split _ _ _ E) as (h & a1 & a2 & Ha & ->).
+  assert (Hs : map snd (alloc s) = map snd a1 ++ ip :: map snd a2) by (rewrite Ha, map_app; reflexivity).
+  assert (Hf : map fst (alloc s) = map fst a1 ++ h :: map fst a2) by (rewrite Ha, map_app; reflexivity).
+  rewrite Hs in P2. rewrite Hf in P6.
+  assert (Hin : forall v, In v (map snd (a1 ++ a2)) -> In v (map snd (alloc s))).
+  { intros v Hv. rewrite Hs. rewrite map_app in Hv. apply in_app_or in Hv. apply in_or_app. cbn. tauto. }
+  assert (Hip : In ip (map snd (alloc s))) by (rewrite Hs; apply in_or_app; right; now left).
+  assert (Hnip : ~ In ip (map snd (a1 ++ a2))) by (rewrite map_app; now apply NoDup_remove_2 in P2).
+  constructor; cbn.
+  - apply nodup_snoc; auto. intro Hc. now apply (P3 ip Hc).
+  - rewrite map_app. now apply NoDup_remove_1 in P2.
+  - rewrite map_app. now apply NoDup_remove_1 in P6.
+  - intros v Hv Hc. apply in_app_or in Hv. destruct Hv as [Hv|[Hv|[]]].
+    + apply (P3 v Hv). auto.
+    + subst. auto.
+  - intros v Hv. destruct (P4 v Hv) as [Q1 Q2]. split.
+    + intro Hc. apply in_app_or in Hc. destruct Hc as [Hc|[Hc|[]]]; [auto|subst; auto].
+    + intro Hc. auto.
+Qed.
+
+Lemma pool_reserve_inv s m ip s' :
+  pool_inv s -> pool_reserve s m ip = Some s' ->
+  pool_inv s' /\ alookup m (alloc s') = Some ip /\ leases s' = leases s /\ cidx s' = cidx s /\
+  unavail s' = unavail s /\ now s' = now s /\
+  (forall h', h' <> m -> alookup h' (alloc s') = alookup h' (alloc s)) /\
+  (alookup m (alloc s) = Some ip \/ In ip (avail s)).
+Proof.
+  intros Hp. pose proof Hp as [P1 P2 P6 P3 P4]. unfold pool_reserve. destruct (alookup m (alloc s)) as [cur|] eqn:E.
+  - destruct (cur =? ip) eqn:Ec; [|discriminate]. apply N.eqb_eq in Ec. subst. intro H; inv H. split; [exact Hp|]. repeat split; auto.
+  - destruct (memN ip (avail s)) eqn:Em; [|discriminate]. apply memN_in in Em. intro H; inv H. cbn.
+    assert (Hx : ~ In ip (map snd (alloc s))) by now apply P3.
+    split; [constructor; cbn|repeat split; cbn; auto].
+    + now apply nodup_remove1.
+    + constructor; auto.
+    + constructor; auto. now apply alookup_none.
+    + intros v Hv [Hc|Hc]; [subst; now apply (notin_remove1 v (avail s))|]. apply in_remove1 in Hv. now apply (P3 v).
+    + intros v Hv. destruct (P4 v Hv) as [Q1 Q2]. split; [intro Hc; apply in_remove1 in Hc; auto|].
+      intros [Hc|Hc]; [subst; auto|auto].
+    + now rewrite N.eqb_refl.
+    + intros h' Hn. destruct (m =? h') eqn:E2; [apply N.eqb_eq in E2; congruence|reflexivity].
+Qed.
+
+Lemma pool_mark_inv s d : pool_inv s -> pool_inv (pool_mark s d).
+Proof.
+  intros [P1 P2 P6 P3 P4]. constructor; cbn.
+  - now apply nodup_remove1.
+  - now apply nodup_map_filter.
+  - now apply nodup_map_filter.
+  - intros v Hv Hc. apply in_remove1 in Hv. apply (P3 v Hv). apply in_map_iff in Hc. destruct Hc as [p [Hp Hf]].
+    apply filter_In in Hf. apply in_map_iff. exists p. tauto.
+  - assert (Hd : ~ In d (remove1 d (avail s)) /\ ~ In d (map snd (filter (fun p => negb (snd p =? d)) (alloc s)))).
+    { split; [now apply notin_remove1|]. intro Hc. apply in_map_iff in Hc. destruct Hc as [p [Hp Hf]].
+      apply filter_In in Hf. destruct Hf as [_ Hf]. rewrite Hp, N.eqb_refl in Hf. discriminate. }
+    assert (Hold : forall v, In v (unavail s) -> ~ In v (remove1 d (avail s)) /\
+              ~ In v (map snd (filter (fun p => negb (snd p =? d)) (alloc s)))).
+    { intros v Hv. destruct (P4 v Hv) as [Q1 Q2]. split; [intro Hc; apply in_remove1 in Hc; auto|].
+      intro Hc. apply Q2. apply in_map_iff in Hc. destruct Hc as [p [Hp Hf]]. apply filter_In in Hf.
+      apply in_map_iff. exists p. tauto. }
+    intros v Hv. destruct (memN d (unavail s)); [auto|]. destruct Hv as [Hv|Hv]; [subst; auto|auto].
+Qed.
+
+Lemma init_pool_inv c : pool_inv (init4 c).
+Proof.
+  constructor; cbn; try constructor; try tauto.
+  unfold init_avail. apply NoDup_filter. apply FinFun.Injective_map_NoDup; [|apply seq_NoDup].
+  intros i j H. lia.
+Qed.
+
+(* guard of the _partial theorems: no relayed DISCOVER/REQUEST carries an option-82 circuit-id,
+   i.e. lookupLeaseByCircuitID is never consulted *)
+Definition op_guard (o : op4) : bool :=
+  match o with
+  | Discover m | Request m => negb (m_relay m && negb (m_cid m =? 0))
+  | _ => true
+  end.
+Definition guard4 (ops : list op4) : bool := forallb op_guard ops.
+
+Record lease_inv (s : state4) : Prop := {
+  l_back : forall m l, alookup m (leases s) = Some l ->
+             alookup m (alloc s) = Some (l_ip l) \/ In (l_ip l) (unavail s);
+  l_inj : forall m1 m2 l1 l2, alookup m1 (leases s) = Some l1 -> alookup m2 (leases s) = Some l2 ->
+             l_ip l1 = l_ip l2 -> m1 = m2 }.
+Definition inv4 (s : state4) : Prop := pool_inv s /\ lease_inv s.
+
+Lemma existing_guard s m : op_guard (Request m) = true ->
+  existing s m = match alookup (m_mac m) (leases s) with Some l => Some (l, false) | None => None end.
+Proof.
+  cbn. unfold existing. intro H. destruct (alookup (m_mac m) (leases s)); [reflexivity|].
+  destruct (m_relay m && negb (m_cid m =? 0)); [discriminate|reflexivity].
+Qed.
+
+(* "c holds v": a lease-table entry (expired or not) or a pool allocation (outstanding offer) *)
+Definition holds (s : state4) (c v : N) : Prop :=
+  (exists l, alookup c (leases s) = Some l /\ l_ip l = v) \/ alookup c (alloc s) = Some v.
+
+(* a value the pool may hand to c *)
+Definition grantable (s : state4) (c v : N) : Prop :=
+  alookup c (alloc s) = Some v \/ In v (avail s) \/ (exists l, alookup c (leases s) = Some l /\ l_ip l = v).
+
+Lemma grantable_exclusive s c v c' : inv4 s -> grantable s c v -> c' <> c -> ~ holds s c' v.
+Proof.
+  intros [[P1 P2 P6 P3 P4] [L3 L4]] Hg Hn Hh.
+  assert (Hc' : In v (map snd (alloc s)) \/ In v (unavail s) -> alookup c' (alloc s) = Some v \/ In v (unavail s) \/ True) by tauto.
+  assert (Hc'v : alookup c' (alloc s) = Some v \/ In v (unavail s)).
+  { destruct Hh as [[l [Hl Hv]]|Hh]; [|now left]. subst v. apply (L3 _ _ Hl). }
+  destruct Hg as [Hg|[Hg|[l [Hl Hv]]]].
+  - destruct Hc'v as [Ha|Hu].
+    + apply Hn. eapply lookup_vals_inj; eauto.
+    + destruct (P4 v Hu) as [_ Q]. apply Q. eapply lookup_in_vals; eauto.
+  - destruct Hc'v as [Ha|Hu].
+    + apply (P3 v Hg). eapply lookup_in_vals; eauto.
+    + destruct (P4 v Hu) as [Q _]. auto.
+  - destruct Hh as [[l' [Hl' Hv']]|Hh].
+    + apply Hn. eapply L4; eauto. congruence.
+    + subst v. destruct (L3 _ _ Hl) as [Ha|Hu].
+      * apply Hn. eapply lookup_vals_inj; eauto.
+      * destruct (P4 _ Hu) as [_ Q]. apply Q. eapply lookup_in_vals; eauto.
+Qed.
+
+Definition op_client (o : op4) : N :=
+  match o with Discover m | Request m | Release m | Decline m | Inform m => m_mac m | _ => 0 end.
+
+(* every value the server OFFERs / ACKs is grantable to that client in the state before *)
+Lemma reply_grantable c s o s' r mk v :
+  pool_inv s -> op_guard o = true -> step4 c s o = (s', r, mk) -> reply_val r = Some v -> grantable s (op_client o) v.
+Proof.
+  intros Hp Hg Hs Hv. destruct o as [m|m|m|m|m|d|ord]; cbn in Hs; cbn [op_client].
+  - rewrite (existing_guard s m Hg) in Hs. destruct (alookup (m_mac m) (leases s)) as [l|] eqn:El.
+    + cbn [fst] in Hs. destruct (now s <? l_exp l).
+      * inv Hs. inv Hv. right; right. eauto.
+      * destruct (pool_alloc (m_mac m) (alloc s) (avail s)) as [[[ip a'] v']|] eqn:Ep; inv Hs; [|discriminate].
+        inv Hv. destruct (pool_alloc_inv _ _ _ _ _ Hp Ep) as (_ & _ & _ & [H|H]); [now left|right; now left].
+    + destruct (pool_alloc (m_mac m) (alloc s) (avail s)) as [[[ip a'] v']|] eqn:Ep; inv Hs; [|discriminate].
+      inv Hv. destruct (pool_alloc_inv _ _ _ _ _ Hp Ep) as (_ & _ & _ & [H|H]); [now left|right; now left].
+  - rewrite (existing_guard s m Hg) in Hs. destruct (alookup (m_mac m) (leases s)) as [l|] eqn:El.
+    + cbn [fst] in Hs. destruct (l_ip l =? requested m) eqn:Eq; inv Hs; [|discriminate].
+      inv Hv. apply N.eqb_eq in Eq. right; right. eauto.
+    + destruct (negb (contains4 c (requested m))); [inv Hs; discriminate|].
+      destruct (pool_reserve s (m_mac m) (requested m)) as [s1|] eqn:Er; inv Hs; [|discriminate].
+      inv Hv. destruct (pool_reserve_inv _ _ _ _ Hp Er) as (_ & _ & _ & _ & _ & _ & _ & [H|H]); [now left|right; now left].
+  - destruct (alookup (m_mac m) (leases s)); inv Hs; discriminate.
+  - destruct (alookup (m_mac m) (leases s)); inv Hs; discriminate.
+  - inv Hs. discriminate.
+  - inv Hs. discriminate.
+  - inv Hs. discriminate.
+Qed.
+
+Lemma pool_inv_ext s s' : alloc s' = alloc s -> avail s' = avail s -> unavail s' = unavail s -> pool_inv s -> pool_inv s'.
+Proof. intros E1 E2 E3 [P1 P2 P6 P3 P4]. constructor; rewrite ?E1, ?E2, ?E3; auto. Qed.
+
+Lemma lease_inv_mono s s' :
+  (forall m l, alookup m (leases s') = Some l -> alookup m (leases s) = Some l) ->
+  (forall m l, alookup m (leases s') = Some l -> alookup m (alloc s) = Some (l_ip l) \/ In (l_ip l) (unavail s) ->
+               alookup m (alloc s') = Some (l_ip l) \/ In (l_ip l) (unavail s')) ->
+  lease_inv s -> lease_inv s'.
+Proof.
+  intros Hsub Hb [L3 L4]. constructor.
+  - intros m l Hl. apply Hb; auto.
+  - intros m1 m2 l1 l2 H1 H2. apply L4; auto.
+Qed.
+
+Lemma notin_alookup {A} k (l : list (N * A)) : ~ In k (map fst l) -> alookup k l = None.
+Proof.
+  induction l as [|[k' v] tl IH]; cbn; [reflexivity|]. intro H. destruct (k' =? k) eqn:E.
+  - apply N.eqb_eq in E. tauto.
+  - apply IH. tauto.
+Qed.
+
+Lemma drop_first_lookup ip a a' m v :
+  NoDup (map fst a) -> NoDup (map snd a) -> drop_first_val ip a = Some a' ->
+  alookup m a = Some v -> v <> ip -> alookup m a' = Some v.
+Proof.
+  revert a'. induction a as [|[h x] tl IH]; cbn; [discriminate|]. intros a' Hk Hv. inv Hk. inv Hv.
+  destruct (x =? ip) eqn:E.
+  - apply N.eqb_eq in E. subst x. intro H; inv H. destruct (h =? m); [congruence|auto].
+  - destruct (drop_first_val ip tl) eqn:E2; [|discriminate]. intro H; inv H. cbn.
+    destruct (h =? m); [auto|]. intros. eapply IH; eauto.
+Qed.
+
+Lemma alookup_filter_keep (a : list (N * N)) g m v :
+  NoDup (map fst a) -> alookup m a = Some v -> g (m, v) = true -> alookup m (filter g a) = Some v.
+Proof.
+  intros Hn Hl Hg. apply in_alookup; [now apply nodup_map_filter|]. apply filter_In. split; [now apply alookup_in|assumption].
+Qed.
+
+Lemma alookup_aremove_some {A} k k' (v : A) l : alookup k (aremove k' l) = Some v -> k <> k' /\ alookup k l = Some v.
+Proof.
+  intro H. destruct (N.eq_dec k k') as [->|Hn]; [rewrite alookup_aremove_eq in H; discriminate|].
+  split; [assumption|]. now rewrite alookup_aremove_ne in H.
+Qed.
+
+(* releasing the address of m's lease, after the lease entry is gone *)
+Lemma release_inv s m l : inv4 s -> alookup m (leases s) = Some l -> inv4 (pool_release (drop_lease s m l) (l_ip l)).
+Proof.
+  intros [Hp Hl] Hm. pose proof Hp as [P1 P2 P6 P3 P4]. pose proof Hl as [L3 L4].
+  assert (Hp1 : pool_inv (drop_lease s m l)) by (eapply pool_inv_ext; [..|exact Hp]; reflexivity).
+  split; [now apply pool_release_inv|].
+  unfold pool_release. cbn [alloc drop_lease]. destruct (drop_first_val (l_ip l) (alloc s)) eqn:E.
+  - eapply lease_inv_mono; [| |exact Hl]; cbn.
+    + intros m' l' H. now apply alookup_aremove_some in H.
+    + intros m' l' H Hb. apply alookup_aremove_some in H. destruct H as [Hn H]. destruct Hb as [Hb|Hb]; [|now right].
+      left. eapply drop_first_lookup; eauto; try (intro Heq; apply Hn; eapply L4; eauto).
+  - eapply lease_inv_mono; [| |exact Hl]; cbn.
+    + intros m' l' H. now apply alookup_aremove_some in H.
+    + intros m' l' H Hb. exact Hb.
+Qed.
+
+Lemma in_unavail_mark d v u : In v u -> In v (if memN d u then u else d :: u).
+Proof. intro H. destruct (memN d u); [assumption|now right]. Qed.
+Lemma in_unavail_mark_self d u : In d (if memN d u then u else d :: u).
+Proof. destruct (memN d u) eqn:E; [now apply memN_in|now left]. Qed.
+
+Lemma decline_inv s m l od : inv4 s -> alookup m (leases s) = Some l ->
+  inv4 (match od with Some d => pool_mark (drop_lease s m l) d | None => drop_lease s m l end).
+Proof.
+  intros [Hp Hl] Hm. pose proof Hp as [P1 P2 P6 P3 P4].
+  assert (Hp1 : pool_inv (drop_lease s m l)) by (eapply pool_inv_ext; [..|exact Hp]; reflexivity).
+  destruct od as [d|].
+  - split; [now apply pool_mark_inv|]. eapply lease_inv_mono; [| |exact Hl]; cbn.
+    + intros m' l' H. now apply alookup_aremove_some in H.
+    + intros m' l' H [Hb|Hb]; [|right; now apply in_unavail_mark].
+      destruct (l_ip l' =? d) eqn:E.
+      * apply N.eqb_eq in E. rewrite E. right. apply in_unavail_mark_self.
+      * left. apply alookup_filter_keep; auto. cbn. now rewrite E.
+  - split; [assumption|]. eapply lease_inv_mono; [| |exact Hl]; cbn; auto.
+    intros m' l' H. now apply alookup_aremove_some in H.
+Qed.
+
+Lemma expire_one_inv s m : inv4 s -> inv4 (expire_one s m).
+Proof.
+  intro H. unfold expire_one. destruct (alookup m (leases s)) eqn:E; [|assumption].
+  destruct (l_exp l <=? now s); [|assumption]. now apply release_inv.
+Qed.
+Lemma fold_expire_inv l s : inv4 s -> inv4 (fold_left expire_one l s).
+Proof. revert s. induction l; cbn; auto using expire_one_inv. Qed.
+
+Lemma add_alloc_inv s h ip a' v' :
+  inv4 s -> pool_alloc h (alloc s) (avail s) = Some (ip, a', v') -> inv4 (with_pool s a' v' (unavail s)).
+Proof.
+  intros [Hp Hl] Ha. destruct (pool_alloc_inv _ _ _ _ _ Hp Ha) as (Hp' & Hh & Ho & _). split; [assumption|].
+  eapply lease_inv_mono; [| |exact Hl]; cbn; auto.
+  intros m l Hm [Hb|Hb]; [|now right]. left. destruct (N.eq_dec m h) as [->|Hn].
+  - unfold pool_alloc in Ha. rewrite Hb in Ha. inv Ha. assumption.
+  - now rewrite Ho.
+Qed.
+
+Lemma do_ack_inv c s m ex ip : inv4 s ->
+  alookup (m_mac m) (alloc s) = Some ip \/ (exists l, alookup (m_mac m) (leases s) = Some l /\ l_ip l = ip) ->
+  inv4 (do_ack c s m ex ip).
+Proof.
+  intros Hi Hg. pose proof Hi as [Hp [L3 L4]].
+  split; [eapply pool_inv_ext; [..|exact Hp]; reflexivity|].
+  assert (Hex : forall c', c' <> m_mac m -> ~ holds s c' ip).
+  { intros c' Hn. eapply grantable_exclusive; eauto. destruct Hg as [Hg|Hg]; [now left|right; now right]. }
+  constructor; unfold do_ack; cbn [leases alloc unavail].
+  - intros m' l'. destruct (N.eq_dec m' (m_mac m)) as [->|Hn].
+    + rewrite alookup_aset_eq. intro H; inv H. cbn. destruct Hg as [Hg|[l [Hl Hv]]]; [now left|]. subst ip. now apply L3.
+    + rewrite alookup_aset_ne by assumption. apply L3.
+  - intros m1 m2 l1 l2. destruct (N.eq_dec m1 (m_mac m)) as [->|Hn1]; destruct (N.eq_dec m2 (m_mac m)) as [->|Hn2]; auto.
+    + rewrite alookup_aset_eq, alookup_aset_ne by assumption. intros H1 H2 He. inv H1. cbn in He.
+      exfalso. apply (Hex m2 Hn2). left. eauto.
+    + rewrite alookup_aset_eq, alookup_aset_ne by assumption. intros H1 H2 He. inv H2. cbn in He.
+      exfalso. apply (Hex m1 Hn1). left. eauto.
+    + rewrite !alookup_aset_ne by assumption. apply L4.
+Qed.
+
+Lemma reserve_inv s m ip s' : inv4 s -> pool_reserve s m ip = Some s' -> inv4 s' /\ alookup m (alloc s') = Some ip.
+Proof.
+  intros [Hp Hl] Hr. destruct (pool_reserve_inv _ _ _ _ Hp Hr) as (Hp' & Hm & El & _ & Eu & _ & Ho & _).
+  split; [|assumption]. split; [assumption|]. eapply lease_inv_mono; [| |exact Hl].
+  - intros m' l. now rewrite El.
+  - intros m' l H [Hb|Hb]; [|right; now rewrite Eu]. left. destruct (N.eq_dec m' m) as [->|Hn]; [|now rewrite Ho].
+    unfold pool_reserve in Hr. rewrite Hb in Hr. destruct (l_ip l =? ip) eqn:E; [|discriminate]. apply N.eqb_eq in E. now rewrite E.
+Qed.
+
+Lemma step_inv c s o : inv4 s -> op_guard o = true -> inv4 (step4s c s o).
+Proof.
+  intros Hi Hg. unfold step4s. destruct (step4 c s o) as [[s' r] mk] eqn:Hs. cbn.
+  destruct o as [m|m|m|m|m|d|ord]; cbn in Hs.
+  - rewrite (existing_guard s m Hg) in Hs. destruct (alookup (m_mac m) (leases s)) as [l|] eqn:El.
+    + cbn [fst] in Hs. destruct (now s <? l_exp l); [inv Hs; assumption|].
+      destruct (pool_alloc (m_mac m) (alloc s) (avail s)) as [[[ip a'] v']|] eqn:Ep; inv Hs; [|assumption].
+      eapply add_alloc_inv; eauto.
+    + destruct (pool_alloc (m_mac m) (alloc s) (avail s)) as [[[ip a'] v']|] eqn:Ep; inv Hs; [|assumption].
+      eapply add_alloc_inv; eauto.
+  - rewrite (existing_guard s m Hg) in Hs. destruct (alookup (m_mac m) (leases s)) as [l|] eqn:El.
+    + cbn [fst] in Hs. destruct (l_ip l =? requested m) eqn:Eq; inv Hs; [|assumption].
+      apply N.eqb_eq in Eq. apply do_ack_inv; [assumption|]. right. eauto.
+    + destruct (negb (contains4 c (requested m))); [inv Hs; assumption|].
+      destruct (pool_reserve s (m_mac m) (requested m)) as [s1|] eqn:Er; inv Hs; [|assumption].
+      destruct (reserve_inv _ _ _ _ Hi Er) as [Hi1 Ha]. apply do_ack_inv; [assumption|now left].
+  - destruct (alookup (m_mac m) (leases s)) eqn:E; inv Hs; [|assumption]. now apply release_inv.
+  - destruct (alookup (m_mac m) (leases s)) eqn:E; inv Hs; [|assumption]. now apply decline_inv.
+  - inv Hs. assumption.
+  - inv Hs. destruct Hi as [Hp Hl]. split; [eapply pool_inv_ext; [..|exact Hp]; reflexivity|].
+    eapply lease_inv_mono; [| |exact Hl]; cbn; auto.
+  - inv Hs. now apply fold_expire_inv.
+Qed.
+
+Lemma init_inv c : inv4 (init4 c).
+Proof. split; [apply init_pool_inv|]. constructor; cbn; intros; discriminate. Qed.
+
+Lemma run_inv c ops : guard4 ops = true -> inv4 (run4 c ops).
+Proof.
+  unfold run4. generalize (init_inv c). generalize (init4 c). induction ops as [|o tl IH]; cbn; intros s0 H0 Hg; [assumption|].
+  apply andb_true_iff in Hg. destruct Hg as [Hg1 Hg2]. apply IH; [|assumption]. now apply step_inv.
+Qed.
+
+(* (a) under the guard: an OFFER/ACK value is not held (leased, even expired-uncleaned, or offered) by another client *)
+Lemma v4_a_partial c ops o s' r mk v c' :
+  guard4 (ops ++ [o]) = true ->
+  step4 c (run4 c ops) o = (s', r, mk) -> reply_val r = Some v -> c' <> op_client o ->
+  ~ holds (run4 c ops) c' v.
+Proof.
+  intros Hg Hs Hv Hn. unfold guard4 in Hg. rewrite forallb_app in Hg. apply andb_true_iff in Hg. destruct Hg as [Hg1 Hg2].
+  cbn in Hg2. rewrite andb_true_r in Hg2. pose proof (run_inv c ops Hg1) as Hi.
+  eapply grantable_exclusive; eauto. eapply reply_grantable; eauto. apply Hi.
+Qed.
+
+(* (b) under the guard: at most one lease-table entry per address *)
+Lemma v4_b_partial c ops m1 m2 l1 l2 :
+  guard4 ops = true ->
+  alookup m1 (leases (run4 c ops)) = Some l1 -> alookup m2 (leases (run4 c ops)) = Some l2 ->
+  l_ip l1 = l_ip l2 -> m1 = m2.
+Proof. intros Hg. destruct (run_inv c ops Hg) as [_ [_ L4]]. apply L4. Qed.
+
+(* v is out of service: marked unavailable and in no lease-table entry *)
+Definition dead (s : state4) (v : N) : Prop :=
+  In v (unavail s) /\ forall m l, alookup m (leases s) = Some l -> l_ip l <> v.
+
+Lemma pool_release_unavail s ip : unavail (pool_release s ip) = unavail s.
+Proof. unfold pool_release. destruct (drop_first_val ip (alloc s)); reflexivity. Qed.
+Lemma pool_release_leases s ip : leases (pool_release s ip) = leases s.
+Proof. unfold pool_release. destruct (drop_first_val ip (alloc s)); reflexivity. Qed.
+
+Lemma expire_one_dead s m v : dead s v -> dead (expire_one s m) v.
+Proof.
+  intros [Hu Hl]. unfold expire_one. destruct (alookup m (leases s)) eqn:E; [|split; assumption].
+  destruct (l_exp l <=? now s); [|split; assumption]. split.
+  - now rewrite pool_release_unavail.
+  - rewrite pool_release_leases. cbn. intros m' l' H. apply alookup_aremove_some in H. apply (Hl m' l'). tauto.
+Qed.
+Lemma fold_expire_dead l s v : dead s v -> dead (fold_left expire_one l s) v.
+Proof. revert s. induction l; cbn; auto using expire_one_dead. Qed.
+
+Lemma step_dead c s o s' r mk v :
+  inv4 s -> op_guard o = true -> dead s v -> step4 c s o = (s', r, mk) ->
+  dead s' v /\ reply_val r <> Some v.
+Proof.
+  intros Hi Hg Hd Hs. pose proof Hi as [Hp _]. pose proof Hd as [Hu Hl].
+  assert (Hr : reply_val r <> Some v).
+  { intro Hv. pose proof (reply_grantable _ _ _ _ _ _ _ Hp Hg Hs Hv) as Hgr. destruct Hp as [_ _ _ _ P4].
+    destruct (P4 v Hu) as [Q1 Q2]. destruct Hgr as [H|[H|[l [H1 H2]]]].
+    - apply Q2. eapply lookup_in_vals; eauto.
+    - auto.
+    - apply (Hl _ _ H1 H2). }
+  split; [|assumption].
+  destruct o as [m|m|m|m|m|d|ord]; cbn in Hs.
+  - destruct (existing s m) as [e|].
+    + destruct (now s <? l_exp (fst e)); [inv Hs; assumption|].
+      destruct (pool_alloc (m_mac m) (alloc s) (avail s)) as [[[ip a'] v']|]; inv Hs; split; assumption.
+    + destruct (pool_alloc (m_mac m) (alloc s) (avail s)) as [[[ip a'] v']|]; inv Hs; split; assumption.
+  - assert (Hack : forall s1 ex ip, dead s1 v -> ip <> v -> dead (do_ack c s1 m ex ip) v).
+    { intros s1 ex ip [Hu1 Hl1] Hne. split; [assumption|]. unfold do_ack. cbn [leases]. intros m' l'.
+      destruct (N.eq_dec m' (m_mac m)) as [->|Hn].
+      - rewrite alookup_aset_eq. intro H; inv H. assumption.
+      - rewrite alookup_aset_ne by assumption. apply Hl1. }
+    destruct (existing s m) as [e|].
+    + destruct (l_ip (fst e) =? requested m); inv Hs; [|assumption]. apply Hack; [assumption|]. cbn in Hr. congruence.
+    + destruct (negb (contains4 c (requested m))); [inv Hs; assumption|].
+      destruct (pool_reserve s (m_mac m) (requested m)) as [s1|] eqn:Er; inv Hs; [|assumption].
+      destruct (pool_reserve_inv _ _ _ _ Hp Er) as (_ & _ & El & _ & Eu & _).
+      apply Hack; [split; [now rewrite Eu|now rewrite El]|]. cbn in Hr. congruence.
+  - destruct (alookup (m_mac m) (leases s)) eqn:E; inv Hs; [|assumption]. split.
+    + now rewrite pool_release_unavail.
+    + rewrite pool_release_leases. cbn. intros m' l' H. apply alookup_aremove_some in H. apply (Hl m' l'). tauto.
+  - destruct (alookup (m_mac m) (leases s)) eqn:E; inv Hs; [|assumption].
+    assert (Hl' : forall m' l', alookup m' (aremove (m_mac m) (leases s)) = Some l' -> l_ip l' <> v).
+    { intros m' l' H. apply alookup_aremove_some in H. apply (Hl m' l'). tauto. }
+    destruct (m_req m); split; cbn; auto. now apply in_unavail_mark.
+  - inv Hs. assumption.
+  - inv Hs. split; assumption.
+  - inv Hs. now apply fold_expire_dead.
+Qed.
+
+(* (e) under the guard: once the holder of a lease on v declines v, v is never offered or
+   acknowledged again, whatever (guarded) messages follow *)
+Lemma v4_e_partial c ops1 ops2 m l o s' r mk :
+  guard4 (ops1 ++ Decline m :: ops2 ++ [o]) = true ->
+  alookup (m_mac m) (leases (run4 c ops1)) = Some l -> m_req m = Some (l_ip l) ->
+  step4 c (run4 c (ops1 ++ Decline m :: ops2)) o = (s', r, mk) ->
+  reply_val r <> Some (l_ip l).
+Proof.
+  intros Hg Hl Hreq Hs. unfold guard4 in Hg. rewrite forallb_app in Hg. apply andb_true_iff in Hg. destruct Hg as [G1 G2].
+  cbn in G2. rewrite forallb_app in G2. apply andb_true_iff in G2. destruct G2 as [G2 G3]. cbn in G3. rewrite andb_true_r in G3.
+  pose proof (run_inv c ops1 G1) as Hi1. set (s1 := run4 c ops1) in *.
+  assert (Hrun : run4 c (ops1 ++ Decline m :: ops2) = fold_left (step4s c) ops2 (step4s c s1 (Decline m))).
+  { unfold run4. rewrite fold_left_app. reflexivity. }
+  rewrite Hrun in Hs. set (s2 := step4s c s1 (Decline m)) in *.
+  assert (Hi2 : inv4 s2) by (apply step_inv; auto).
+  assert (Hd2 : dead s2 (l_ip l)).
+  { subst s2. unfold step4s. cbn. rewrite Hl, Hreq. cbn. split; [apply in_unavail_mark_self|].
+    intros m' l' H. apply alookup_aremove_some in H. destruct H as [Hn H]. intro He. apply Hn.
+    destruct Hi1 as [_ [_ L4]]. eapply L4; eauto. }
+  clearbody s2. clear Hrun. revert s2 Hi2 Hd2 Hs. induction ops2 as [|o2 tl IH]; cbn; intros s2 Hi2 Hd2 Hs.
+  - eapply step_dead; eauto.
+  - cbn in G2. apply andb_true_iff in G2. destruct G2 as [Ga Gb]. apply (IH Gb (step4s c s2 o2)); auto.
+    + now apply step_inv.
+    + unfold step4s. destruct (step4 c s2 o2) as [[s3 r3] mk3] eqn:E3. cbn. exact (proj1 (step_dead _ _ _ _ _ _ _ Hi2 Ga Hd2 E3)).
+Qed.
+
+(* (f) release, under the guard: the released address is back on the free list (or was declined) *)
+Lemma v4_f_release_partial c ops m l :
+  guard4 ops = true -> alookup (m_mac m) (leases (run4 c ops)) = Some l ->
+  let s' := step4s c (run4 c ops) (Release m) in
+  alookup (m_mac m) (leases s') = None /\ (In (l_ip l) (avail s') \/ In (l_ip l) (unavail s')).
+Proof.
+  intros Hg Hl. destruct (run_inv c ops Hg) as [Hp [L3 L4]]. unfold step4s. cbn. rewrite Hl. cbn. split.
+  - rewrite pool_release_leases. cbn. apply alookup_aremove_eq.
+  - unfold pool_release. cbn [alloc drop_lease]. destruct (drop_first_val (l_ip l) (alloc (run4 c ops))) eqn:E; cbn.
+    + left. apply in_or_app. right. now left.
+    + apply drop_first_val_none in E. destruct (L3 _ _ Hl) as [H|H]; [exfalso; apply E; eapply lookup_in_vals; eauto|now right].
+Qed.
+
+(* (f) expiry, under the guard: after a cleanup tick no expired lease is left *)
+Lemma expire_keeps s m m' l' : alookup m' (leases (expire_one s m)) = Some l' ->
+  alookup m' (leases s) = Some l' /\ (m' = m -> now s < l_exp l').
+Proof.
+  unfold expire_one. destruct (alookup m (leases s)) eqn:E.
+  - destruct (l_exp l <=? now s) eqn:Ex.
+    + rewrite pool_release_leases. cbn. intro H. apply alookup_aremove_some in H. destruct H as [Hn H]. split; [assumption|tauto].
+    + intro H. split; [assumption|]. intros ->. rewrite E in H. inv H. lia.
+  - intro H. split; [assumption|]. intros ->. congruence.
+Qed.
+Lemma expire_one_now s m : now (expire_one s m) = now s.
+Proof.
+  unfold expire_one. destruct (alookup m (leases s)); [|reflexivity]. destruct (l_exp l <=? now s); [|reflexivity].
+  unfold pool_release. cbn. destruct (drop_first_val (l_ip l) (alloc s)); reflexivity.
+Qed.
+Lemma fold_expire_keeps ms s m' l' : alookup m' (leases (fold_left expire_one ms s)) = Some l' ->
+  alookup m' (leases s) = Some l' /\ (In m' ms -> now s < l_exp l') /\ now (fold_left expire_one ms s) = now s.
+Proof.
+  revert s. induction ms as [|m tl IH]; cbn; intros s H; [tauto|].
+  destruct (IH _ H) as (H1 & H2 & H3). destruct (expire_keeps _ _ _ _ H1) as [H4 H5]. rewrite expire_one_now in *.
+  repeat split; auto. intros [->|Hi]; auto.
+Qed.
+Lemma v4_f_expiry c ops ord m l :
+  alookup m (leases (step4s c (run4 c ops) (Cleanup ord))) = Some l ->
+  now (run4 c ops) < l_exp l.
+Proof.
+  unfold step4s. cbn. intro H. destruct (fold_expire_keeps _ _ _ _ H) as (H1 & H2 & _). apply H2.
+  apply in_or_app. right. apply alookup_in in H1. now apply (in_map fst) in H1.
+Qed.
 
 (* (d) renewing an own unexpired binding: the REQUEST is ACKed with the same address and the
    binding keeps it.  The state is the one reached by ANY history. *)
@@ -17,3 +771,44 @@ Proof.
   eexists _, _. split; [reflexivity|]. unfold do_ack, aset. cbn [leases alookup]. rewrite N.eqb_refl.
   eexists. split; reflexivity.
 Qed.
+
+(* ---- witnesses (corpus/C02/k02a-circuit-id-second-mac.json) ---- *)
+Definition w_cfg : cfg4 := {| c_net := 167773952; c_size := 4; c_gw := 167774465; c_lt := 100 |}.
+Definition w_m (mac : N) (req : option N) (relay : bool) (cid : N) : msg4 :=
+  {| m_mac := mac; m_req := req; m_ci := 0; m_relay := relay; m_cid := cid |}.
+Definition w_ops : list op4 :=
+  [Discover (w_m 1 None false 0); Request (w_m 1 (Some 167773953) true 1)].
+
+Lemma v4_a_refuted : exists c ops o s' r mk v c',
+  step4 c (run4 c ops) o = (s', r, mk) /\ reply_val r = Some v /\ c' <> op_client o /\ holds (run4 c ops) c' v.
+Proof.
+  exists w_cfg, w_ops, (Discover (w_m 2 None true 1)). eexists _, _, _, 167773953, 1.
+  split; [vm_compute; reflexivity|]. split; [reflexivity|]. split; [discriminate|]. right. vm_compute. reflexivity.
+Qed.
+
+Lemma v4_b_refuted : exists c ops m1 m2 l1 l2,
+  alookup m1 (leases (run4 c ops)) = Some l1 /\ alookup m2 (leases (run4 c ops)) = Some l2 /\
+  l_ip l1 = l_ip l2 /\ m1 <> m2 /\ now (run4 c ops) < l_exp l1 /\ now (run4 c ops) < l_exp l2.
+Proof.
+  exists w_cfg, (w_ops ++ [Request (w_m 2 (Some 167773953) true 1)]), 1, 2. eexists _, _.
+  split; [vm_compute; reflexivity|]. split; [vm_compute; reflexivity|]. split; [reflexivity|]. split; [discriminate|].
+  split; vm_compute; reflexivity.
+Qed.
+
+(* the holder declines its address; another MAC that obtained it through the circuit-ID index is offered it again *)
+Lemma v4_e_refuted : exists c ops1 ops2 m l o s' r mk,
+  alookup (m_mac m) (leases (run4 c ops1)) = Some l /\ m_req m = Some (l_ip l) /\
+  step4 c (run4 c (ops1 ++ Decline m :: ops2)) o = (s', r, mk) /\ reply_val r = Some (l_ip l).
+Proof.
+  exists w_cfg, (w_ops ++ [Request (w_m 2 (Some 167773953) true 1)]), [], (w_m 1 (Some 167773953) false 0).
+  eexists _, (Discover (w_m 2 None false 0)), _, _, _.
+  split; [vm_compute; reflexivity|]. split; [reflexivity|]. split; vm_compute; reflexivity.
+Qed.
+
+Example v4_guard_satisfiable :
+  guard4 [Discover (w_m 1 None false 0); Request (w_m 1 (Some 167773953) false 1); Discover (w_m 2 None true 0);
+          Decline (w_m 1 (Some 167773953) false 0); Advance 101; Cleanup []] = true /\
+  exists l, alookup 1 (leases (run4 w_cfg [Discover (w_m 1 None false 0); Request (w_m 1 (Some 167773953) false 1)])) = Some l
+            /\ l_ip l = 167773953.
+Proof. split; [reflexivity|]. eexists. split; vm_compute; reflexivity. Qed.
+
